@@ -36,11 +36,19 @@ type mySQLUndoDeleteExecutor struct {
 func newMySQLUndoDeleteExecutor(sqlUndoLog undo.SQLUndoLog) *mySQLUndoDeleteExecutor {
 	return &mySQLUndoDeleteExecutor{
 		sqlUndoLog:   sqlUndoLog,
-		baseExecutor: &BaseExecutor{sqlUndoLog: sqlUndoLog, undoImage: sqlUndoLog.AfterImage},
+		baseExecutor: &BaseExecutor{sqlUndoLog: sqlUndoLog, undoImage: sqlUndoLog.BeforeImage},
 	}
 }
 
 func (m *mySQLUndoDeleteExecutor) ExecuteOn(ctx context.Context, dbType types.DBType, conn *sql.Conn) error {
+	// do not re-insert over a row somebody else has written under the same key since the branch committed
+	ok, err := m.baseExecutor.dataValidationAndGoOn(ctx, conn)
+	if err != nil {
+		return err
+	}
+	if !ok {
+		return nil
+	}
 
 	undoSql, err := m.buildUndoSQL(dbType)
 	if err != nil {
